@@ -2,8 +2,8 @@
     This file only restates lemmas proved in Simd/DispatchProofs.v and Simd/SimdProofs.v. *)
 From Coq Require Import List Bool.
 From Coq Require Import NArith Arith.
-From Carquet Require Import Base.Res Gen.Dispatch_gen Gen.Intrinsics_gen Simd.DispatchModel Simd.DispatchProofs.
-From Carquet Require Import Simd.Vec Simd.ScalarKernels Simd.SseKernels Simd.Avx2Kernels Simd.Avx512Kernels Simd.BssProofs Simd.SeqProofs Simd.MemProofs Simd.LevelProofs Simd.PackProofs Simd.PsumProofs Simd.UnpackProofs Simd.ScanProofs.
+From Carquet Require Import Base.Res Gen.Consts_gen Gen.Dispatch_gen Gen.Intrinsics_gen Simd.DispatchModel Simd.DispatchProofs.
+From Carquet Require Import Simd.Vec Simd.ScalarKernels Simd.SseKernels Simd.Avx2Kernels Simd.Avx512Kernels Simd.BssProofs Simd.SeqProofs Simd.MemProofs Simd.LevelProofs Simd.PackProofs Simd.PsumProofs Simd.UnpackProofs Simd.ScanProofs Simd.CrcProofs.
 Import ListNotations.
 
 (** Dispatcher: for EVERY capability set (any list of features) and every slot of the dispatch table
@@ -301,3 +301,9 @@ Theorem sse_match_length_kernel_eq_scalar : forall n p m,
   length p = n -> length m = n -> exists r, sse_match_length n p m = Ok r /\ scalar_match_length n p m = Ok r.
 Proof. exact sse_match_length_eq_scalar. Qed.
 Print Assumptions sse_match_length_kernel_eq_scalar.
+
+(** CRC32C: the SSE4.2 crc32-instruction kernel equals the table-driven scalar definition (table regenerated from dispatch.c) *)
+Theorem sse_crc32c_kernel_eq_scalar : forall crc data,
+  bytes_ok data -> sse_crc32c crc data = Ok (scalar_crc32c Simd_crc32c_table crc data).
+Proof. exact sse_crc32c_eq_scalar. Qed.
+Print Assumptions sse_crc32c_kernel_eq_scalar.
